@@ -38,3 +38,18 @@ claim("C11", "stateful property-based testing (proptest histories) with independ
 claim("C18", "property-based testing (proptest) with independent id derivation and payload encoding",
       "Random token kinds/metadata (incl. a harness token with unrepresentable metadata), callers, destinations, gas amounts and authorisation; success predicted from the statement's conditions; announced payload, gas event and service event compared field by field with independently computed values; only the gas payment may move funds; refusals leave the ledger identical.",
       "authorisation is all-or-nothing here (C07 studies who must authorise)", "DESIGN.md §3 C18")
+claim("C07", "exhaustive entry-point x authoriser matrix + property-based state variation, by record-and-substitute authorisation",
+      "All 17 entry points that act for a named address x 8 authoriser classes x 2 allowance states are enumerated in every run; the (nested) authorisation trees are recorded in a twin world and replayed with exactly one principal signing, or the call is made by a probe contract with no entries. Success iff the named address authorised or is the calling contract; refusals must leave the ledger identical.",
+      "deterministic world construction; host authorisation framework trusted; contract-caller class restricted to entry points whose only authorisation is at the entry point itself", "DESIGN.md §3 C07")
+claim("C14", "stateful property-based testing (proptest histories) against a running-balance model",
+      "Random histories of pay/add/collect/refund over three tokens (two asset contracts and the current-source token) with boundary amounts and four authoriser classes for payouts; service, spender and receiver balances compared with the running-balance equation after every step; one event per movement; refusals leave the ledger identical.",
+      "payments are authorised by the spender (mocked; C07 studies that)", "DESIGN.md §3 C14")
+claim("C15", "exhaustive bounded enumeration of upgrade/migrate sequences + full Upgrader matrix, plus property-based longer sequences, against a migration-window model",
+      "All {upgrade,migrate}x{owner,former owner,stranger,nobody} sequences to length 3 (quick) / 4 (thorough) on the five production contracts and a derive-macro probe, with and without ownership transfer; the complete Upgrader matrix (target x requested version x authorisation coverage x migration data); random sequences to length 8. Failure atomicity by ledger-snapshot equality; the migration flag is read directly as a cross-check.",
+      "upgrades use the empty-Wasm hash so that the current-source native entry points stay in place (no wasm32 toolchain); the committed dummy.wasm provides a real code change", "DESIGN.md §3 C15")
+claim("C16", "exhaustive app x deviation matrix + property-based deliveries, effect/snapshot oracle",
+      "Both apps (the shipped example and a minimal app using the interface's helper) x nine approval situations enumerated; proptest samples deliveries (strings incl. empty, payloads to 600 bytes). Effect and gateway status change iff a matching unexecuted approval exists; otherwise the delivery fails with the ledger identical; second delivery always refused.",
+      "approvals carry honest proofs", "DESIGN.md §3 C16")
+claim("C17", "stateful property-based testing (proptest histories) against a set model with a recording probe target",
+      "Random histories of add/remove/transfer-ownership/execute with four authoriser classes each; membership swept after every step; forwarded calls compared (function, arguments, return value) with the probe target's own log; failing targets and refused calls must leave the ledger identical.",
+      "exact mock_auths trees per call", "DESIGN.md §3 C17")
